@@ -1,8 +1,8 @@
 #!/bin/sh
 # usage: tools/run_all.sh [quick|thorough] [jobs] [PROP...]   — runs registered checks against /repo, rewriting evidence/
 tier=${1:-quick}; jobs=${2:-3}; shift 2 2>/dev/null
-cd /verif
+cd "$(dirname "$0")/.."
 props="$@"
 [ -z "$props" ] && props=$(/venv/bin/python -c "import json;print(' '.join(c['property_id'] for c in json.load(open('MANIFEST.json'))['checks']))")
-mkdir -p /tmp/runall
-echo $props | tr ' ' '\n' | xargs -P $jobs -I{} sh -c "./check {} --tier $tier > /tmp/runall/{}.log 2>&1; echo {} rc=\$? \$(grep '^\[{}\]' /tmp/runall/{}.log | tail -1)"
+LOGDIR=${RUNALL_LOGDIR:-/tmp/runall}; mkdir -p $LOGDIR
+echo $props | tr ' ' '\n' | xargs -P $jobs -I{} sh -c "./check {} --tier $tier > $LOGDIR/{}.log 2>&1; echo {} rc=\$? \$(grep '^\[{}\]' $LOGDIR/{}.log | tail -1)"
